@@ -80,6 +80,8 @@ func (st *state) dispatch(toks []string) (string, string) {
 		return fragOp(toks), ""
 	case "stress":
 		return stressOp(toks), ""
+	case "ptrace":
+		return ptraceOp(toks), ""
 	case "conn":
 		return st.connect(toks[1]), ""
 	case "resp":
